@@ -5,8 +5,8 @@ import OrsoVerif.Generated.Persist
 # C16 — persistence of schemas and columns: `orso/schema.py`
 
 `FlatColumn.__init__` (:152-218, the constructor's normalisation), `to_flatcolumn` (:271-289),
-`to_json` / `from_json` / `FlatColumn.from_dict` (:329-362), `RelationSchema.to_dict` / `from_dict`
-(:644-688), and what `RelationSchema.validate` / `DataFrame.description` see of a schema.
+`to_json` / `from_json` / `FlatColumn.from_dict` (:329-373), `RelationSchema.to_dict` / `from_dict`
+(:655-699), and what `RelationSchema.validate` / `DataFrame.description` see of a schema.
 
 A column is the record of the seventeen declared dataclass attributes.  Keyword arguments (`Raw`) are
 optional per attribute: `none` = the keyword is absent.  Which keywords exist, which `to_flatcolumn`
@@ -132,6 +132,33 @@ structure Resolved where
   scale : Option Nat
   deriving Repr, DecidableEq
 
+/-- one of the fill statements of :185-193, as listed in `Gen.Persist.initFills`: `if self.a is None: self.a = _b`
+(guard `isNone`) or `self.a = self.a or _b` (guard `falsy`: a falsy value is overwritten too); an attribute that is
+not listed is left alone. `falsy cur` = Python's `not cur` for a value that is not None. -/
+def fill {α : Type} (attr : String) (falsy : α → Bool) (parsed : String → Option α) (cur : Option α) : Option α :=
+  match initFills.find? (fun f => f.1 == attr) with
+  | none => cur
+  | some (_, guard, field) =>
+    match cur with
+    | none => parsed field
+    | some v => if guard == "isNone" then some v else if falsy v then parsed field else some v
+
+def natField (d : TypeName.Desc) : String → Option Nat
+  | "length" => d.length
+  | "precision" => d.precision
+  | "scale" => d.scale
+  | _ => none
+
+def elemField (d : TypeName.Desc) : String → Option RawTy
+  | "elem" => d.elem.map RawTy.member
+  | _ => none
+
+/-- `not x` for a type literal that is not None: the int 0 and the empty text (a member is a non-empty `str`) -/
+def rawTyFalsy : RawTy → Bool
+  | .member _ => false
+  | .text s => s.isEmpty
+  | .zero => true
+
 /-- :181-193 map literals to OrsoTypes; the parsed parameters fill attributes that are still None, and
 only when the result is an `OrsoTypes` member. -/
 def resolveType (t : RawTy) (elem : Option RawTy) (len prec scale : Option Nat) : Except Err Resolved :=
@@ -144,8 +171,8 @@ def resolveType (t : RawTy) (elem : Option RawTy) (len prec scale : Option Nat) 
       match d.ty with
       | .zero => .ok ⟨.zero, elem, len, prec, scale⟩
       | .member m =>
-        .ok ⟨.member m, elem.orElse (fun _ => d.elem.map RawTy.member), len.orElse (fun _ => d.length),
-             prec.orElse (fun _ => d.precision), scale.orElse (fun _ => d.scale)⟩
+        .ok ⟨.member m, fill "element_type" rawTyFalsy (elemField d) elem, fill "length" (· == 0) (natField d) len,
+             fill "precision" (· == 0) (natField d) prec, fill "scale" (· == 0) (natField d) scale⟩
 
 /-- map a literal element type to the member (`from_name(x)[0]`) -/
 def resolveElem : Option RawTy → Except Err (Option Ty)
@@ -181,12 +208,19 @@ def resolveDefault {V : Type} (K : Caster V) (ty : Ty) (v : V) : Except Err V :=
 
 def isDecimal (ty : Ty) : Bool := ty == .member TypeName.litDecimal
 
+/-- the guard of a DECIMAL default as listed in `Gen.Persist.decimalFills`: `self.a is None` (`isNone`) or
+`not self.a` (`falsy`: 0 counts as absent); an attribute that is not listed is never defaulted -/
+def decimalGuard (attr : String) (cur : Option Nat) : Bool :=
+  match decimalFills.lookup attr with
+  | none => false
+  | some g => cur.isNone || (g != "isNone" && cur == some 0)
+
 /-- :213-218 DECIMAL defaults: `getcontext().prec`, `int(0.75 * precision)` -/
 def decimalPrecision (ty : Ty) (p : Option Nat) : Option Nat :=
-  if isDecimal ty && p.isNone then some Gen.TypeName.ctxPrec else p
+  if isDecimal ty && decimalGuard "precision" p then some Gen.TypeName.ctxPrec else p
 
 def decimalScale (ty : Ty) (p s : Option Nat) : Option Nat :=
-  if isDecimal ty && s.isNone then p.map (fun pv => Gen.TypeName.scaleNum * pv / Gen.TypeName.scaleDen) else s
+  if isDecimal ty && decimalGuard "scale" s then p.map (fun pv => Gen.TypeName.scaleNum * pv / Gen.TypeName.scaleDen) else s
 
 /-- `FlatColumn(**r)`; `fresh` is what `random_string()` returns when no identity is given. -/
 def init {V : Type} (K : Caster V) (fresh : String) (r : Raw V) : Except Err (Col V) :=
@@ -315,12 +349,13 @@ def toFlat {V : Type} (K : Caster V) (fresh : String) (c : Col V) : Except Err (
 
 /-! ## `RelationSchema.to_dict` / `from_dict`, `FlatColumn.to_json` / `from_json` -/
 
-/-- `_converter` / orjson: an enum member is written as its value -/
+/-- `_converter` (`value.value if isinstance(value, Enum)`; which attribute is `Gen.Persist.enumWrittenAs`) / orjson:
+an enum member is written as its value -/
 def writeTy : Ty → RawTy
-  | .member m => .text (TypeName.valueOf m)
+  | .member m => .text (if enumWrittenAs == "value" then TypeName.valueOf m else m)
   | .zero => .zero
 
-def writeDisp (n : String) : RawDisp := .text (dispValue n)
+def writeDisp (n : String) : RawDisp := .text (if enumWrittenAs == "value" then dispValue n else n)
 
 /-- the keys `asdict` emits: every declared field -/
 def em {α : Type} (k : String) (v : α) : Option α := if k ∈ columnFields then some v else none
@@ -370,23 +405,62 @@ def colToJson {V : Type} (K : Caster V) (c : Col V) : Except Err (Raw V) :=
             lowest_value := em "lowest_value" l, expectations := em "expectations" ex }
     | _, _, _, _ => .error .type
 
-/-- `dic.get("element_type") == '0'` -> the member (repair C16-F08) -/
-def restoreElem (e : Option (Option RawTy)) : Option (Option RawTy) :=
-  if e = some (some (.text (TypeName.valueOf missingName))) then some (some (.member missingName)) else e
+/-! ### `FlatColumn.from_dict` (:355-373), statement by statement from `Gen.Persist.fromDictRules` -/
 
-/-- `FlatColumn.from_dict`: the value of `_MISSING_TYPE`, written for an untyped column and for an untyped
-element type, is mapped back to the member, then `cls(**dic)`.  (`dic.get("type") == "0"` is false for the
-int 0.) -/
+/-- `x == OrsoTypes.<m>.value` for a type literal `x`: `OrsoTypes` is a `str` enum, so a member equals its value;
+the int 0 equals no text -/
+def tyEqValue (t : RawTy) (m : Str) : Bool :=
+  match t with
+  | .text s => s == TypeName.valueOf m
+  | .member m' => TypeName.valueOf m' == TypeName.valueOf m
+  | .zero => false
+
+/-- one condition of a rule, on the dictionary as it is at that statement -/
+def evalCond {V : Type} (d : Raw V) : String × String × String → Bool
+  | ("eqValue", "type", m) =>
+    match d.type with
+    | some t => tyEqValue t m.toList
+    | none => false
+  | ("eqValue", "element_type", m) =>
+    match d.element_type with
+    | some (some t) => tyEqValue t m.toList
+    | _ => false
+  | ("present", "element_type", _) => d.element_type.isSome
+  | ("present", "type", _) => d.type.isSome
+  | ("isNone", "element_type", _) =>
+    match d.element_type with
+    | some none => true
+    | _ => false
+  | _ => false
+
+/-- `dic = {**dic, key: OrsoTypes.<m>}` -/
+def assignMember {V : Type} (d : Raw V) (key m : String) : Raw V :=
+  match key with
+  | "type" => { d with type := some (.member m.toList) }
+  | "element_type" => { d with element_type := some (some (.member m.toList)) }
+  | _ => d
+
+def applyRule {V : Type} (d : Raw V) (r : List (String × String × String) × String × String) : Raw V :=
+  if r.1.all (evalCond d) then assignMember d r.2.1 r.2.2 else d
+
+/-- the statements of `from_dict` before `cls(**dic)`, in order: the value of `_MISSING_TYPE`, written for an
+untyped column and for an untyped element type, is mapped back to the member (F04, F08); a written `'ARRAY'` with
+a null element type is handed over as the member, so that the bare name does not default the element type (K03) -/
+def prepare {V : Type} (d : Raw V) : Raw V := fromDictRules.foldl applyRule d
+
+/-- `FlatColumn.from_dict`: the rules, then `cls(**dic)` -/
 def colFromDict {V : Type} (K : Caster V) (fresh : String) (d : Raw V) : Except Err (Col V) :=
-  if d.type = some (.text (TypeName.valueOf missingName)) then
-    init K fresh { d with type := some (.member missingName), element_type := restoreElem d.element_type }
-  else init K fresh { d with element_type := restoreElem d.element_type }
+  init K fresh (prepare d)
+
+/-- how a parsed dictionary becomes a column: through `from_dict` or directly `cls(**dic)` -/
+def load {V : Type} (loader : String) (K : Caster V) (fresh : String) (d : Raw V) : Except Err (Col V) :=
+  if loader == "from_dict" then colFromDict K fresh d else init K fresh d
 
 /-- `FlatColumn.from_json(c.to_json())` -/
 def jsonRoundTrip {V : Type} (K : Caster V) (fresh : String) (c : Col V) : Except Err (Col V) :=
   match colToJson K c with
   | .error e => .error e
-  | .ok d => colFromDict K fresh d
+  | .ok d => load jsonLoader K fresh d
 
 structure Schema (V : Type) where
   name : String
@@ -452,7 +526,7 @@ def fromDict {V : Type} (K : Caster V) (fresh : String) (d : SDict V) : Except E
       match sColumns d k with
       | none => .error .key
       | some cols =>
-        match mapE (colFromDict K fresh) cols with
+        match mapE (load columnLoader K fresh) cols with
         | .error e => .error e
         | .ok cs => .ok ⟨name, aliases, cs, pk⟩
 
@@ -499,12 +573,10 @@ def Constructed {V : Type} (K : Caster V) (c : Col V) : Prop :=
 def persistableTypes : List Str := missingName :: TypeName.baseTypes
 
 /-- What the written forms carry faithfully: the type is a base type or untyped (not the int 0), the
-element type a base type, an ARRAY names its element type (a bare `'ARRAY'` is read back with the
-default element type — `array_without_element_type_changes`), the disposition is a member. -/
+element type (if any) a base type or untyped, the disposition a member. -/
 def Persistable {V : Type} (c : Col V) : Prop :=
   (∃ m, c.type = .member m ∧ m ∈ persistableTypes)
   ∧ (∀ e, c.element_type = some e → ∃ m, e = .member m ∧ m ∈ persistableTypes)
-  ∧ (c.type = .member TypeName.litArray → c.element_type.isSome = true)
   ∧ (∀ n, c.disposition = some n → n ∈ dispositions.map Prod.fst)
 
 /-- the default survives JSON: casting its JSON rendering gives it back (C07: canonical renderings), or it
